@@ -198,7 +198,13 @@ def judge(c):
         if out.startswith("EXC") or out == "HANG" or out in ("EXITCODE 2 %00", "EXITCODE 1 %00") or out.startswith("EXITCODE 0"):
             res.append(("violation", "%s -> %s: a malformed argument must give a message and a non-zero exit, not a traceback" % (c.lines[0], out)))
         return res
+    back = None
+    if fam == "S" and out.count(" ; ") == 2:
+        out, back = out.rsplit(" ; ", 1)
     cli, lib = [x.strip() for x in out.split(" ; ", 1)]
+    if back and back.startswith("YEARBAD"):
+        res.append(("violation", "%s: prints %s, whose year is not the year %s of the shifted date-time" % (
+            c.lines[0], dec(cli[4:]).strip() if cli.startswith("OUT ") else cli, back.split()[1])))
     if cli.startswith("EXC"):
         return res + [("violation", "%s -> %s" % (c.lines[0], cli))]
     if fam in ("S", "R"):
